@@ -69,10 +69,10 @@ type vwProp struct {
 
 // one element of a text stream: a request (args), a response (ok,msg,results) or raw bytes
 type vwStreamItem struct {
-	Kind    string  `json:"kind"` // req | status | error | results | raw
-	Args    [][]int `json:"args"`
-	Msg     []int   `json:"msg"`
-	Raw     []int   `json:"raw"`
+	Kind string  `json:"kind"` // req | status | error | results | raw
+	Args [][]int `json:"args"`
+	Msg  []int   `json:"msg"`
+	Raw  []int   `json:"raw"`
 }
 
 func vwInts(b []byte) []int {
@@ -739,9 +739,9 @@ type vwTextProto struct {
 	parser *TextParser
 }
 
-func (p *vwTextProto) GetDBId() uint8          { return 0 }
-func (p *vwTextProto) GetLockId() [16]byte     { return [16]byte{} }
-func (p *vwTextProto) GetTimeout() uint16      { return 15 }
+func (p *vwTextProto) GetDBId() uint8      { return 0 }
+func (p *vwTextProto) GetLockId() [16]byte { return [16]byte{} }
+func (p *vwTextProto) GetTimeout() uint16  { return 15 }
 func (p *vwTextProto) GetLockCommand() *LockCommand {
 	return &LockCommand{Command: Command{Magic: MAGIC, Version: VERSION}}
 }
